@@ -1,11 +1,13 @@
 #!/bin/bash
 # usage: confirm_seed.sh <prop> <mutation dir with patch.diff demo_test.go meta.json>
-# Confirms in the scratch worktree /tmp/mt: (1) demo passes without the change, (2) the change applies and
+# Confirms in the scratch worktree $WT (default /tmp/mt; env WT, BIN for parallel runs): (1) demo passes without the change, (2) the change applies and
 # compiles, (3) demo fails with it, (4) pinned-suite modules touched by the patch still pass their tests.
 # Then runs the property's check against the changed scratch tree. Prints a one-line verdict.
 prop=$1; d=$2
+WT=${WT:-/tmp/mt}; BIN=${BIN:-/verif/bin/osmolint}
 export GOPROXY=off GOSUMDB=off GOTOOLCHAIN=local; unset GOFLAGS GOWORK
-cd /tmp/mt || exit 9
+cd $WT || exit 9
+mkdir -p $WT-verif; cp /verif/known_findings.json $WT-verif/
 git checkout -q -- . ; git clean -fdq -- . >/dev/null 2>&1
 echo 'package statik' > client/docs/statik/statik.go
 rm -f x/concentrated-liquidity/fuzz_test.go
@@ -20,23 +22,23 @@ import json,re,sys
 m=json.load(open('$d/meta.json')); c=m.get('demo_cmd','')
 r=re.search(r\"-run[ =]+'([^']+)'\", c) or re.search(r'-run[ =]+\"([^\"]+)\"', c) or re.search(r'-run[ =]+(\S+)', c)
 print(r.group(1) if r else 'ZZDemo')")
-run_demo() { (cd /tmp/mt/$mod && timeout 1500 go test ./$rel -count=1 -run "$runre" 2>&1 | tail -25); }
+run_demo() { (cd $WT/$mod && timeout 1500 go test ./$rel -count=1 -run "$runre" 2>&1 | tail -25); }
 out0=$(run_demo); echo "$out0" | grep -q "^ok" && without=PASS || without=FAIL
 echo "$out0" | grep -q "no tests to run" && without=NOTRUN
-git apply --whitespace=nowarn $d/patch.diff 2>/tmp/apply.err || { echo "SEED $d: patch does not apply: $(cat /tmp/apply.err | head -2)"; exit 9; }
-build=OK; (go build ./... >/tmp/build.err 2>&1) || build=FAIL
-for m in osmomath osmoutils x/epochs; do if grep -q "^+++ b/$m/" $d/patch.diff; then (cd $m && go build ./... >>/tmp/build.err 2>&1) || build=FAIL; fi; done
+git apply --whitespace=nowarn $d/patch.diff 2>$WT-verif/apply.err || { echo "SEED $d: patch does not apply: $(cat $WT-verif/apply.err | head -2)"; exit 9; }
+build=OK; (go build ./... >$WT-verif/build.err 2>&1) || build=FAIL
+for m in osmomath osmoutils x/epochs; do if grep -q "^+++ b/$m/" $d/patch.diff; then (cd $m && go build ./... >>$WT-verif/build.err 2>&1) || build=FAIL; fi; done
 out1=$(run_demo); echo "$out1" | grep -q "^ok" && with=PASS || with=FAIL
 pinned=n/a
 for m in osmomath osmoutils x/epochs; do
   if grep -q "^+++ b/$m/" $d/patch.diff; then
     rm -f $pkgdir/zz_demo_test.go
-    (cd $m && timeout 1500 go test ./... -count=1 >/tmp/pinned.out 2>&1) && pinned=PASS || pinned=FAIL
+    (cd $m && timeout 1500 go test ./... -count=1 >$WT-verif/pinned.out 2>&1) && pinned=PASS || pinned=FAIL
     cp $d/demo_test.go $pkgdir/zz_demo_test.go
   fi
 done
 rm -f $pkgdir/zz_demo_test.go
-res=$(VERIF_REPO=/tmp/mt VERIF_DIR=/tmp/mt-verif /verif/bin/osmolint -property $prop 2>&1)
+res=$(VERIF_REPO=$WT VERIF_DIR=$WT-verif $BIN -property $prop 2>&1)
 echo "$res" | grep -q "^VIOLATION" && det=DETECTED || det=MISSED
 echo "$res" | grep -q "CHECK-BROKEN" && det="$det(BROKEN)"
 echo "SEED $d: demo_without=$without build=$build demo_with=$with pinned_tests=$pinned check=$det"
